@@ -1398,6 +1398,7 @@ EXTERNALS = {
     "strlen": _strlen, "memcmp": _memcmp, "bcmp": _memcmp,
     "memcpy": _memcpy, "memmove": _memmove, "memset": _memset,
     "_ZNSt8ios_base4InitC1Ev": _noop, "_ZNSt8ios_base4InitD1Ev": _noop,
+    "_ZNSt6chrono3_V212system_clock3nowEv": _noop, "_ZNSt6chrono3_V212steady_clock3nowEv": _noop,
 }
 
 
